@@ -349,7 +349,7 @@ class _Builder:
         args: T.List[str] = []
         payloads: T.List[str] = []
         for i, h in enumerate(hs):
-            shape = self.rng.randrange(5) if self.force is None else (0, 2, 3, 4)[i % 4]
+            shape = self.rng.randrange(7) if self.force is None else (0, 2, 3, 4, 5, 6)[i % 6]
             if opt:
                 # shown to the real gcc by meson's sanity check: must be a valid macro definition
                 for _ in range(12):
@@ -358,9 +358,24 @@ class _Builder:
                     h = make_string(self.rng, self.rng.choice(sorted(classes_of(h) - {'newline'}) or ['space']), self.tier, False)
                 else:
                     h = 'q'
-                args.append(f'-D{self.tag()}={h}')
+                if shape >= 5:
+                    args += ['-D', f'{self.tag()}={h}']     # the two-token spelling of the same option
+                else:
+                    args.append(f'-D{self.tag()}={h}')
                 payloads.append(h)
                 continue
+            if shape >= 5:
+                # two-token spellings `-D NAME=val`, `-U NAME`, `-isystem dir`: both tokens must arrive, adjacent, in order.
+                # (In per-target lists the value carries no backslash: whether the -D doubling applies to the detached
+                # value is not fixed by any document, so it is not demanded either way.)
+                if pos.startswith('targs'):
+                    h = h.replace('\\', '')
+                opt_tok = '-D' if shape == 5 else self.rng.choice(['-U', '-isystem'])
+                val = f'{self.tag()}={h}' if opt_tok == '-D' else f'{self.tag()}{h}'
+                if compile_safe(val):
+                    payloads.append(h)
+                    args += [opt_tok, val]
+                    continue
             payloads.append(h)
             if shape <= 1:
                 args.append(f'-D{self.tag()}={h}')
@@ -715,6 +730,16 @@ def build_plan(idx: int, seed: int, tier: str, rsp: bool, newline_pos: T.Optiona
     L.append(f"test('t_workdir', dump, args: {mlist(body)}, workdir: meson.current_build_dir() / 'sub')")
     add_cmd('t_workdir', 't_workdir', 'test', body, {}, rewrite=False)
 
+    # ---- a second `meson test` run: --repeat N (every execution must get the same argv) and, in two projects of three,
+    # --test-args with hostile strings (appended after the test's own args).  Drawn last: earlier strings do not shift.
+    if force is not None:
+        ta = [x for x in (b.force.get('cmd') or []) if x != '&&'][:3]
+    elif idx % 3 == 0:
+        ta = []
+    else:
+        ta = [make_string(rng, rng.choice([c for c in CLASSES if c != 'long']), b.tier, True) for _ in range(rng.choice([1, 2, 3]))]
+    test_repeat = {'repeat': 2 + (idx % 2), 'test_args': ta}
+
     # ---- literal calibration: the interpreter's values, dumped at configure time without any shell
     calib = list(dict.fromkeys(b.calib))
     chunks = [calib[i:i + 40] for i in range(0, len(calib), 40)] or [[]]
@@ -730,7 +755,7 @@ def build_plan(idx: int, seed: int, tier: str, rsp: bool, newline_pos: T.Optiona
         'files': files,
         'setup_args': ['-Dc_args=' + pylist_literal(oa), '-Dc_link_args=' + pylist_literal(ola)],
         'calib': chunks, 'calibopt': list(oa) + ['<sep>'] + list(ola),
-        'cmd': b.cmd, 'compile': b.compile, 'link': b.link, 'run_targets': run_targets, 'env_forms': env_forms_used,
+        'cmd': b.cmd, 'compile': b.compile, 'link': b.link, 'run_targets': run_targets, 'env_forms': env_forms_used, 'test_repeat': test_repeat,
         'strings': b.strings,
     }
 
